@@ -63,6 +63,10 @@ type Ctx struct {
 	lck  sync.Mutex
 	done bool
 
+	// gotHeaders is set once the response header block has been read, which
+	// makes any further header block on the stream its trailers. Guarded by lck.
+	gotHeaders bool
+
 	// conn is the connection the request went out on, for the cancel timer.
 	conn atomic.Pointer[Conn]
 
@@ -203,6 +207,7 @@ func acquireCtx(req *fasthttp.Request, res *fasthttp.Response) *Ctx {
 	ctx.Response = res
 	ctx.streamID = 0
 	ctx.done = false
+	ctx.gotHeaders = false
 	ctx.resolved = false
 	ctx.finished = false
 	ctx.armed = false
